@@ -57,6 +57,25 @@ Definition tcp_size (m : msg) : res Z :=
 (* MessageHeader *)
 Record hdr := { h_len : Z; h_mlen : Z; h_code : Z; h_tok : list Z }.
 
+(* the switch on lenNib inside DecodeHeader: (opLen, remaining data, hdrOff) *)
+Definition tcp_ext_len (lenNib : Z) (data : list Z) (hdrOff : Z) : res (Z * list Z * Z) :=
+  if lenNib <? MessageLength13Base then Ok (lenNib, data, hdrOff)
+  else if lenNib =? 13 then
+    if blen data <? 1 then Err EShortRead
+    else do e <- idx data 0; do data <- sl_from data 1;
+         Ok (MessageLength13Base + e, data, hdrOff + 1)
+  else if lenNib =? 14 then
+    if blen data <? 2 then Err EShortRead
+    else do e1 <- idx data 1; do e0 <- idx data 0; do data <- sl_from data 2;
+         Ok (MessageLength14Base + (e0 * 256 + e1), data, hdrOff + 2)
+  else
+    if blen data <? 4 then Err EShortRead
+    else do e3 <- idx data 3; do e0 <- idx data 0; do e1 <- idx data 1; do e2 <- idx data 2;
+         do data <- sl_from data 4;
+         let e := ((e0 * 256 + e1) * 256 + e2) * 256 + e3 in
+         if e >? messageMaxLen then Err EInvalidEncoding
+         else Ok (MessageLength15Base + e, data, hdrOff + 4).
+
 (* func (c *Coder) DecodeHeader(data []byte, h *MessageHeader) (int, error)  (h zero on entry) *)
 Definition tcp_decode_header (data : list Z) : res hdr :=
   if blen data =? 0 then Err EShortRead
@@ -68,23 +87,7 @@ Definition tcp_decode_header (data : list Z) : res hdr :=
     let tkl := Z.land b0 15 in
     if tkl >? MaxTokenSize then Err ETokenLen
     else
-      do (opLen, data, hdrOff) <-
-        (if lenNib <? MessageLength13Base then Ok (lenNib, data, hdrOff)
-         else if lenNib =? 13 then
-           if blen data <? 1 then Err EShortRead
-           else do e <- idx data 0; do data <- sl_from data 1;
-                Ok (MessageLength13Base + e, data, hdrOff + 1)
-         else if lenNib =? 14 then
-           if blen data <? 2 then Err EShortRead
-           else do e1 <- idx data 1; do e0 <- idx data 0; do data <- sl_from data 2;
-                Ok (MessageLength14Base + (e0 * 256 + e1), data, hdrOff + 2)
-         else
-           if blen data <? 4 then Err EShortRead
-           else do e3 <- idx data 3; do e0 <- idx data 0; do e1 <- idx data 1; do e2 <- idx data 2;
-                do data <- sl_from data 4;
-                let e := ((e0 * 256 + e1) * 256 + e2) * 256 + e3 in
-                if e >? messageMaxLen then Err EInvalidEncoding
-                else Ok (MessageLength15Base + e, data, hdrOff + 4));
+      do (opLen, data, hdrOff) <- tcp_ext_len lenNib data hdrOff;
       (* h.MessageLength = hdrOff + 1 + uint32(tkl) + uint32(opLen)   -- uint32 arithmetic *)
       let mlen := u32 (u32 (u32 (hdrOff + 1) + tkl) + u32 opLen) in
       if blen data <? 1 then Err EShortRead
